@@ -627,7 +627,7 @@ func scenDisrupt(x *Ctx) {
 	}
 	outs := subset(r, x.others2(l, all), k)
 	maj := minus(all, outs)
-	term := x.C.Node(l).Raft.Status().Term
+	term := x.C.Node(l).R().Status().Term
 	x.C.ResetStall()
 	x.M.Emit(mon.Event{Kind: mon.KPhase, Str: fmt.Sprintf("c16.start|%s|%s|%d|%d", strings.Join(maj, ","), l, term, int64(x.ET()))})
 	x.Step("window: leader %s term %d, majority %v, outsiders %v", l, term, maj, outs)
@@ -832,7 +832,7 @@ func scenLingering(x *Ctx) {
 		x.Inconclusive("leader not stable at window start")
 		return
 	}
-	term := x.C.Node(l).Raft.Status().Term
+	term := x.C.Node(l).R().Status().Term
 	maj := []string{l, a}
 	sort.Strings(maj)
 	lease := x.C.Opts.Lease
@@ -904,7 +904,7 @@ func scenLeaseVote(x *Ctx) {
 		return
 	}
 	bc := x.others(a)
-	term := x.C.Node(a).Raft.Status().Term
+	term := x.C.Node(a).R().Status().Term
 	// real vote requests are held until the follower is back in contact with the leader
 	gate := simnet.NewGate()
 	x.C.Net.AddRule(&simnet.Rule{Name: "hold-real-votes", Gate: gate, Match: func(m *mon.Msg, reply bool) bool {
@@ -996,3 +996,61 @@ func scenLeaseVote(x *Ctx) {
 }
 
 func init() { Registry["w2.leasevote"] = scenLeaseVote }
+
+// scenInstallCrash: a lagging follower is killed at a chosen point of a snapshot installation (after the snapshot
+// became visible, before the log was trimmed / discarded, ...), restarted, and must catch up (C14, C15).
+func scenInstallCrash(x *Ctx) {
+	r := x.R
+	all, l, ok := x.startStatic(3)
+	if !ok {
+		return
+	}
+	f := x.others(l)[r.Intn(2)]
+	x.Writes(1, l, 3, time.Second)
+	variant := r.Intn(3)
+	if variant == 0 {
+		// give the follower a stale uncommitted tail first: make it the old leader
+		x.Step("isolate leader %s with an uncommitted tail", l)
+		x.C.Net.Partition([]string{l}, x.others(l))
+		w := x.WritesAsync(2, l, 4+r.Intn(6), 60*time.Millisecond)
+		f = l
+		l = x.C.WaitLeaderAmong(minus(all, []string{f}), 5*time.Second)
+		w()
+		if l == "" {
+			x.Inconclusive("no new leader")
+			return
+		}
+	} else {
+		x.Step("isolate follower %s", f)
+		x.C.Net.Partition([]string{f}, minus(all, []string{f}))
+	}
+	// the rest of the cluster moves on far enough to snapshot and compact
+	thr := x.C.Opts.FSM.SnapThreshold
+	if thr <= 0 {
+		thr = 10
+	}
+	x.Writes(3, l, 2*thr+5, time.Second)
+	ops := []string{"log.discard", "log.discard", "log.compact", "snap.close", "snap.write", "snap.new"}
+	plan := &shim.CrashPlan{Op: ops[r.Intn(len(ops))], Nth: 1, After: r.Intn(2) == 0}
+	pos := "before"
+	if plan.After {
+		pos = "after"
+	}
+	x.Step("plan crash of %s %s %s, heal", f, pos, plan.Op)
+	x.C.Node(f).PlanCrash(plan)
+	x.C.Net.Heal()
+	if x.C.Node(f).WaitDown(3 * time.Second) {
+		x.Cover("install-crash-fired:" + pos + " " + plan.Op)
+		if r.Intn(2) == 0 {
+			x.Writes(4, l, 3, time.Second)
+		}
+		x.Step("restart %s", f)
+		if err := x.C.Node(f).Restart(); err != nil {
+			x.M.AddViolation(mon.Violation{Props: []string{"C14", "C13"}, Sig: "restart-failed", Node: f, Msg: fmt.Sprintf("node %s could not be created/started over its directory after %q: %v", f, x.C.Node(f).LastCrash, err)})
+		}
+	}
+	x.NT("install-crash")
+	x.finishDirected()
+}
+
+func init() { Registry["w2.installcrash"] = scenInstallCrash }
